@@ -18,7 +18,8 @@ head, body = block('monadic')
 lazy = body
 lazy = re.sub(r'(//@   ensures lift1_post_\$R\(c, a, v0, )v1, v2\)', r'\1old(call(f1)), old(call(f2)))', lazy)
 out.append('// lazy variants (derived from the eager contracts by gen_scalar_contracts.py)')
-out.append('//@ for $R,$F in (Real64,float64)')
+out.append('//@ for $R,$F,$T in (Real64,float64,@), (Real32,float32,+)')
+out.append('//@ propsdefault C01$T C08$T')
 out.append('//@ func (*$R).monadicLazy [also: (*$R).realMonadicLazy]')
 out.append(lazy)
 head, body = block('dyadic')
@@ -116,6 +117,7 @@ MON = {
     'Gamma': gamma_(x), 'Lgamma': lgamma(x),
 }
 MON_CALLEE = {'Neg': 'monadic'}
+TWIN = {'Neg': 'NEG', 'Add': 'ADD', 'Sub': 'SUB', 'Mul': 'MUL', 'Div': 'DIV', 'Exp': 'EXP', 'Log': 'LOG', 'Log1p': 'LOG1P'}
 # domain preconditions (real model): where the named function / its closed-form derivative is defined
 DOMAIN = {'Lgamma': 'val(a) > 0', 'Log': 'val(a) > 0', 'Log1p': 'val(a) > 0 - 1'}
 DYA = {
@@ -126,22 +128,23 @@ out.append('// -----------------------------------------------------------------
 out.append('// operations: value and first/second derivative coefficients against the NAMED function')
 out.append('// (formulas below are generated by symbolic differentiation; see /verif/spec/gen_scalar_contracts.py)')
 out.append('')
-out.append('//@ props C01 C02 C08 C09')
-out.append('//@ for $R,$F in (Real64,float64)')
+out.append('//@ for $R,$F,$T in (Real64,float64,@), (Real32,float32,+)')
+out.append('//@ propsdefault C01$T C02$T C08$T C09$T')
 for name, f in MON.items():
     f1 = sp.diff(f, x)
     f2 = sp.diff(f1, x)
     callee = MON_CALLEE.get(name, 'monadicLazy')
+    callee = callee + '|real' + callee[0].upper() + callee[1:]
     sub = lambda e: pr(e).replace('x', 'val(a)') if False else pr(e)
     X = 'val(a)'
     def inst(e):
         return re.sub(r'\bx\b', X, pr(e))
-    out.append('//@ func (*$R).%s' % name)
+    out.append('//@ func (*$R).%s' % name + (' [also: (*$R).%s]' % TWIN[name] if name in TWIN else ''))
     out.append('//@   model split')
     out.append('//@   requires RI_$R(c) && RIc(a) && sep_$R(c, a)')
     if name in DOMAIN:
         out.append('//@   requires ' + DOMAIN[name])
-    if callee == 'monadicLazy':
+    if 'Lazy' in callee:
         out.append('//@   site %s @v0 v0 == %s' % (callee, inst(f)))
         out.append('//@   site %s @v1 call(f1) == %s' % (callee, inst(f1)))
         out.append('//@   site %s @v2 call(f2) == %s' % (callee, inst(f2)))
@@ -162,15 +165,15 @@ for name, f in DYA.items():
         s = pr(e)
         s = re.sub(r'\bx\b', X, s)
         return re.sub(r'\by\b', Y, s)
-    out.append('//@ func (*$R).%s' % name)
+    out.append('//@ func (*$R).%s' % name + (' [also: (*$R).%s]' % TWIN[name] if name in TWIN else ''))
     out.append('//@   model split')
     out.append('//@   requires RI_$R(c) && RIc(a) && RIc(b) && sep_$R(c, a) && sep_$R(c, b) && constNoVars(a) && constNoVars(b) && noRealloc_$R(c, a, b)')
     if name == 'Div':
         out.append('//@   requires val(b) != 0')
     out.append('//@   panics_when order(a) >= 1 && order(b) >= 1 && nvars(a) != nvars(b)')
-    out.append('//@   site dyadic @v0 v0 == %s' % inst(f))
+    out.append('//@   site dyadic|realDyadic @v0 v0 == %s' % inst(f))
     for k in ['v10', 'v01', 'v11', 'v20', 'v02']:
-        out.append('//@   site dyadic @%s %s == %s' % (k, k, inst(d[k])))
+        out.append('//@   site dyadic|realDyadic @%s %s == %s' % (k, k, inst(d[k])))
     o = lambda e: inst(e, 'old(val(a))', 'old(val(b))')
     out.append('//@   ensures isa(*$R, result) && as(*$R, result) == c')
     out.append('//@   ensures lift2_post_$R(c, a, b, %s, %s, %s, %s, %s, %s)' % (o(f), o(d['v10']), o(d['v01']), o(d['v11']), o(d['v20']), o(d['v02'])))
